@@ -236,10 +236,13 @@ func searchOps(c mycheck.Col, v []byte, thorough bool) []mycheck.Op {
 	q("update-where-eq-literal", "update t set plain = 'hit' where c = "+lit)
 	q("delete-where-eq-literal", "delete from t where c = "+lit)
 	ps("delete-where-eq-param", "delete from t where c = ?", bp)
+	// several searches in one statement: every one of them carries the owner's index
+	q("eq-literal-and-eq-literal", "select id from t where c = "+lit+" and c = "+lit)
+	ps("eq-param-and-eq-param", "select id from t where c = ? and c = ?", tp, bp)
+	q("eq-literal-or-eq-other-literal", "select id from t where c = "+lit+" or c = "+myLit(c, myPool(c)[0]))
 	if thorough {
 		q("eq-table-alias", "select x.id from t as x where x.c = "+lit)
 		q("eq-qualified", "select t.id from t where t.c = "+lit)
-		q("eq-literal-and-eq-literal", "select id from t where c = "+lit+" and c = "+lit)
 		q("eq-literal-parenthesised", "select id from t where (c = "+lit+") and (id < 3 or 2 > id)")
 		ps("eq-two-params", "select id from t where c = ? or c = ?", tp, bp)
 		ps("update-where-eq-param", "update t set plain = ? where c = ?", mycheck.StrParam("hit"), tp)
@@ -375,7 +378,10 @@ func (w *myWorld) runOne(c mycheck.Col, env *sess.MyEnv, rp myReplay) []myFindin
 		if search.Kind == "eq-envelope-hex-literal" && myEnvelopeOf != nil {
 			sent = myEnvelopeOf(search.SQL) // what stands in the statement is the envelope, not the value
 		}
-		if d := searchDiff(search.SQL, seen.SQL, sent, want); d != "" {
+		// (the token-level comparison knows one searched value; the statement with two different
+		// searched values is judged by its result and by the stored rows only)
+		twoValues := search.Kind == "eq-literal-or-eq-other-literal" && !bytes.Equal(sv, myPool(c)[0])
+		if d := searchDiff(search.SQL, seen.SQL, sent, want); d != "" && !twoValues {
 			add("search/"+search.Kind+"/forwarded-statement", "%s: %.200q -> %.200q", d, search.SQL, seen.SQL)
 		}
 		// parameters: the searched value's parameter carries the index, the others are untouched
